@@ -14,7 +14,7 @@ META = {
                   'xrspatial.pathfinding._min_cost_pixel_id', 'xrspatial.pathfinding._reconstruct_path', 'xrspatial.pathfinding._find_nearest_pixel',
                   'xrspatial.pathfinding._is_not_crossable', 'xrspatial.utils.get_dataarray_resolution'],
     'bounds': {'quick': 'pixel id: axes of 2..5 cells, symbolic origin, step (either sign) and point; A*: every crossability layout (2^9) of a 3x3 surface for a '
-                        'seeded subset of the 81 start/goal pairs x connectivity {4,8}, every layout (2^12) of 3x4 for the four opposite-corner pairs and 4 seeded pairs at connectivity 8, one symbolic barrier value, snap on/off on 2x3',
+                        'seeded subset of the 81 start/goal pairs x connectivity {4,8}, every layout (2^12) of 3x4 for the four opposite-corner pairs and 4 seeded pairs at connectivity 8, one symbolic barrier value, two / three concrete barrier values listed out of order (2x3), snap on/off on 2x3',
                'thorough': 'all 81 pairs of 3x3 for both connectivities, all pairs of 2x4, seeded pairs of 3x4 (4096 layouts each)'},
     'stubs': ['numba.jit = identity', 'warnings.warn = no-op'],
     'outside': ['grids larger than the bound', 'float64 rounding of (p - c0)/cellsize (the quotient is an exact real)',
@@ -54,6 +54,12 @@ def jobs(tier, seed):
                     'conn': 8, 'snap': snap, 'barrier': False})
     out.append({'name': 'astar-2x3-lat-lon-dims', 'kind': 'astar', 'shape': [2, 3], 'start': [1, 0], 'goal': [0, 2], 'conn': 8, 'snap': [False, True], 'barrier': False,
                 'dims': ['lat', 'lon']})
+    # two barrier values listed in descending order (the list is a set: its order must not matter)
+    for (s_, g_) in (((0, 0), (1, 2)), ((1, 0), (0, 2)), ((0, 2), (0, 0))):
+        out.append({'name': 'astar-2x3-two-barriers-unsorted-%d%d-%d%d' % (s_[0], s_[1], g_[0], g_[1]), 'kind': 'astar', 'shape': [2, 3], 'start': list(s_), 'goal': list(g_),
+                    'conn': 8, 'snap': [False, False], 'barrier': [2, 0], 'dtype': 'int32', 'hi': 2})
+    out.append({'name': 'astar-2x3-three-barriers-unsorted-float', 'kind': 'astar', 'shape': [2, 3], 'start': [1, 0], 'goal': [1, 2],
+                'conn': 4, 'snap': [False, False], 'barrier': [4.0, 0.0, 2.0], 'domain': [0.0, 1.0, 2.0, 4.0]})
     # barriers + snapping on a smaller grid
     p23 = pairs(2, 3)
     selb = pick(p23, 6 if tier == 'quick' else len(p23), seed + 2, always=[5])
@@ -115,14 +121,20 @@ def body(ctx, job):
     g = tuple(job['goal'])
     conn = job['conn']
     dt = job.get('dtype', 'float64')
-    data = ctx.array('d', (h, w), dt, nan=True, **({'lo': 0, 'hi': 1} if dt[0] in 'iu' else {}))
+    data = ctx.array('d', (h, w), dt, nan=True, **({'lo': 0, 'hi': job.get('hi', 1)} if dt[0] in 'iu' else {}))
+    if job.get('domain'):
+        for v in data.flat_values():
+            ctx.assume(Or(isnan(v), *[v == k for k in job['domain']]))
     ys = coords_affine(h, float(h - 1) * 2.0, -2.0)      # descending y, step 2
     xs = coords_affine(w, 10.0, 0.5)                     # ascending x, step 0.5
     dn = tuple(job.get('dims', ('y', 'x')))
     surf = raster(data, dims=dn, ys=ys, xs=xs, attrs={'res': (0.5, 2.0)}, name='surface')
     barriers = []
     if job['barrier']:
-        barriers = [ctx.real('barrier')] if dt[0] not in 'iu' else [0]
+        if isinstance(job['barrier'], list):
+            barriers = list(job['barrier'])
+        else:
+            barriers = [ctx.real('barrier')] if dt[0] not in 'iu' else [0]
     start = (float(ys[s[0]]), float(xs[s[1]]))
     goal = (float(ys[g[0]]), float(xs[g[1]]))
     res = ctx.call('pathfinding:a_star_search', surf, start, goal, barriers, dn[1], dn[0], conn, job['snap'][0], job['snap'][1])
